@@ -66,7 +66,7 @@ func ZZ_AUX_bmc() {
 			zzAssume(ev != 1) // C17 quantifies over streams of valid frames
 		}
 		m, w := zzBool("m", t), zzBool("w", t)
-		zzMotionBit, zzGateOpen = m, w
+		zzMotionBit, zzGateOpen, zzEvIdx = m, w, t
 		zzSetFaults(msink, "m.", t, FAULTS)
 		zzSetFaults(csink, "c.", t, FAULTS)
 		zzSetFaults(ssink, "s.", t, FAULTS)
@@ -83,9 +83,9 @@ func ZZ_AUX_bmc() {
 			// C12 recovery: the start condition of C04 is unaffected by earlier faults
 			startCond := !mOpen && m && r+1 >= T && w && !msink.failCheck && !msink.failStart
 			if startCond {
-				zzAssert(msink.startOKs == 1, "bmc C12: after any failure later motion is recorded normally (start iff C04's condition)")
+				zzAssert(msink.startOKs == 1, "bmc C04/C12: after any failure later motion is recorded normally (start iff C04's condition)")
 			} else {
-				zzAssert(msink.startOKs == 0, "bmc C12: no spurious start after failures")
+				zzAssert(msink.startOKs == 0, "bmc C04/C12: no spurious start after failures")
 			}
 			if msink.stops > 0 {
 				r = 0
@@ -154,7 +154,7 @@ func ZZ_AUX_bmc() {
 			pending = true
 		}
 		_, _ = cOpen, sOpen
-		zzAssert(!msink.viol, "bmc C12: motion sink sees writes only inside start..stop, no start while open")
+		zzAssert(!msink.viol, "bmc C04/C12: motion sink sees writes only inside start..stop, no start while open")
 		zzAssert(!csink.viol, "bmc C12: continuous sink sees writes only inside start..stop, no start while open")
 		zzAssert(!ssink.viol, "bmc C12: test sink sees writes only inside start..stop, no start while open")
 	}
@@ -265,7 +265,7 @@ func ZZ_AUX_step() {
 		dd := mp.motionDetector
 		zzAssert(dd.backgroundFrames == 0 && dd.flooredFrames.currentIndex == 0 && dd.flooredFrames.oldest == 0 && !dd.flooredFrames.bufferFull, "C09/C12/C15: a camera reset always resets the detector, also when closing the recording fails")
 	}
-	zzAssert(!msink.viol, "C12: motion sink sees writes only inside start..stop, no start while open")
+	zzAssert(!msink.viol, "C04/C12: motion sink sees writes only inside start..stop, no start while open")
 	zzAssert(!csink.viol, "C12: continuous sink sees writes only inside start..stop, no start while open")
 	zzAssert(!ssink.viol, "C12: test sink sees writes only inside start..stop, no start while open")
 	// a motion recording always remains bounded: it is closed as soon as its frame
